@@ -8,7 +8,7 @@
    final_m mn mx ops = what the reference monitor recorded from the model's trace of ops;
    final_e mn mx ops = the model's state after ops.  m_deliv r = (position, value, number published so far)
    triples delivered to subscriber r before its first end of stream, newest first. *)
-From Cocls Require Import Base BaseProofs PublisherDefs PublisherProofs.
+From Cocls Require Import Base BaseProofs PublisherDefs PublisherProofs PubThreadDefs PubThreadProofs PubOnce.
 Local Open Scope Z_scope.
 
 (* the property oracle (run on the implementation's traces by the check) accepts the model's trace of EVERY case *)
@@ -78,6 +78,19 @@ Print Assumptions c16_copy_independent.
 Theorem c16_step_invariant : forall e m x, R e m -> R (fst (step e x)) (mon_step m x (snd (step e x))).
 Proof. exact step_R. Qed.
 Print Assumptions c16_step_invariant.
+
+(* over a whole run (any history, composite blocking/polled calls included) no awaiter id occurs twice in the wake-up
+   lists: nothing is resumed twice; with c16_wakes_exact (each list = exactly the parked awaiters): exactly once *)
+Theorem c16_woken_at_most_once : forall mn mx ops, NoDup (wakes (fst (run_from (tst0 mn mx) ops))).
+Proof. exact woken_at_most_once. Qed.
+Print Assumptions c16_woken_at_most_once.
+
+(* threads: a publisher thread against subscriber threads (blocking next(), coroutines co_awaiting next() that are
+   resumed on the waking thread, polling), scheduled at every acquisition of the queue mutex by ANY schedule: the trace
+   of locked steps is accepted by the same oracle, i.e. all of the above holds for every interleaving *)
+Theorem c16_threads_oracle_accepts_model : forall ops, pubt_oracle ops (pubt_run ops) = true.
+Proof. exact threads_oracle_accepts_model. Qed.
+Print Assumptions c16_threads_oracle_accepts_model.
 
 (* non-vacuity: two subscribers (one a copy), close in the window of a next(), a parked awaiter woken, values delivered *)
 Example c16_nonvacuous :
